@@ -493,25 +493,54 @@ func runCLOCK(c *Ctx, r *Result, rule string) {
 	if tc != nil {
 		roots := map[ssa.Value]bool{}
 		stores := 0
-		for _, ins := range instrsIn(tc) {
-			st, ok := ins.(*ssa.Store)
-			if !ok {
-				continue
-			}
-			fa, ok := st.Addr.(*ssa.FieldAddr)
-			if !ok || !isNamed(fa.X.Type(), "jparse", "NumberNode") {
-				continue
-			}
-			stores++
-			v := st.Val
+		unconv := func(v ssa.Value) ssa.Value {
 			for {
 				if cv, ok := v.(*ssa.Convert); ok {
 					v = cv.X
 					continue
 				}
-				break
+				return v
 			}
+		}
+		// the NumberNode may be built in timeCallables itself or by a small helper that is
+		// handed the value
+		nodeValueStores := func(f *ssa.Function) []ssa.Value {
+			var out []ssa.Value
+			for _, ins := range instrsIn(f) {
+				st, ok := ins.(*ssa.Store)
+				if !ok {
+					continue
+				}
+				fa, ok := st.Addr.(*ssa.FieldAddr)
+				if !ok || !isNamed(fa.X.Type(), "jparse", "NumberNode") {
+					continue
+				}
+				out = append(out, unconv(st.Val))
+			}
+			return out
+		}
+		for _, v := range nodeValueStores(tc) {
+			stores++
 			roots[v] = true
+		}
+		for _, ci := range callsIn(tc) {
+			callee := ci.Common().StaticCallee()
+			if callee == nil || !c.G.InSc[callee] || len(callee.Blocks) == 0 {
+				continue
+			}
+			for _, v := range nodeValueStores(callee) {
+				if p, ok := v.(*ssa.Parameter); ok {
+					for i, q := range callee.Params {
+						if q == p && i < len(ci.Common().Args) {
+							stores++
+							roots[unconv(ci.Common().Args[i])] = true
+						}
+					}
+				} else {
+					stores++
+					roots[v] = true
+				}
+			}
 		}
 		o := Obligation{Rule: rule, Key: "jsonata.timeCallables:one-instant", Fn: "jsonata.timeCallables", Pos: c.W.Pos(tc.Pos()), Nontrivial: true}
 		switch {
@@ -1025,20 +1054,30 @@ func lenOfSliceSizedBy(bound, recv ssa.Value) bool {
 }
 
 var idxExceptions = map[string]string{
-	"jlib.Append": "appendSlice(vs, length) is only called as appendSlice(v1, len1) and appendSlice(v2, len2) with lenN = vN.Len() computed just before",
-	"jlib.Zip":    "i < size, and size is the minimum of arrayLen(vs[j]) over all j, computed by the first loop",
-	"jsonata.evalObject": "the index comes from keyIndexes.items, which groupItemsByKey fills with loop indexes j < items.Len() of the same item array",
-	"jsonata.evalSort":   "the index is sortinfo.index, which buildSortInfo sets to the loop index i < items.Len() of the same item array",
+	"jlib.Append:Index#1":        "appendSlice(vs, length) is only called as appendSlice(v1, len1) and appendSlice(v2, len2) with lenN = vN.Len() computed just before",
+	"jlib.Zip:Index#1":           "i < size, and size is the minimum of arrayLen(vs[j]) over all j, computed by the first loop",
+	"jsonata.evalObject:Index#1": "items is made with n = len(idx.items) elements and i ranges over idx.items",
+	"jsonata.evalObject:Index#2": "the index comes from keyIndexes.items, which groupItemsByKey fills with loop indexes j < items.Len() of the same item array",
+	"jsonata.evalSort:Index#1":   "results is made with len(info) elements and i ranges over info",
+	"jsonata.evalSort:Index#2":   "the index is sortinfo.index, which buildSortInfo sets to the loop index i < items.Len() of the same item array",
 }
 
 func runIDX(c *Ctx, r *Result, rule string, fns []*ssa.Function, reach *Reach) int {
 	n := 0
+	type pending struct {
+		o   Obligation
+		f   *ssa.Function
+		key excSiteKey
+		why string
+	}
+	var pend []pending
 	for _, f := range fns {
 		if f.Synthetic != "" {
 			continue
 		}
 		loops := findLoops(f)
 		ord := 0
+		// ordinals count per outermost function, so that a closure's sites share its parent's key space
 		for _, ins := range instrsIn(f) {
 			call, ok := ins.(*ssa.Call)
 			if !ok {
@@ -1078,19 +1117,37 @@ func runIDX(c *Ctx, r *Result, rule string, fns []*ssa.Function, reach *Reach) i
 					}
 				}
 			}
-			switch {
-			case why != "":
-				o.Verdict, o.Reason = Discharged, why
-			case idxExceptions[exceptionKey(f)] != "":
-				o.Verdict, o.Reason = Exception, "exception for "+exceptionKey(f)+": "+idxExceptions[exceptionKey(f)]
-			default:
-				o.Verdict, o.Reason = Finding, "reflect.Value.Index with an index that is not provably within 0..Len-1 (it is neither the variable of a loop bounded by the length, nor a constant under a length test, nor guarded on both sides): an out-of-range index panics"
-				if reach != nil {
-					o.Path = reach.Path(f)
-				}
-			}
-			r.Add(o)
+			pend = append(pend, pending{o: o, f: f, key: excSiteKey{exceptionKey(f), "Index", ord}, why: why})
 		}
+	}
+	var keys []string
+	for k := range idxExceptions {
+		keys = append(keys, k)
+	}
+	var siteKeys, needKeys []excSiteKey
+	for _, p := range pend {
+		siteKeys = append(siteKeys, p.key)
+		if p.why == "" {
+			needKeys = append(needKeys, p.key)
+		}
+	}
+	resolver := newExcResolver(c, keys, siteKeys, needKeys, fns, true)
+	for _, p := range pend {
+		o := p.o
+		switch {
+		case p.why != "":
+			o.Verdict, o.Reason = Discharged, p.why
+		default:
+			if k := resolver.resolve(p.key); k != "" {
+				o.Verdict, o.Reason = Exception, "reviewed ("+k+"): "+idxExceptions[k]
+				break
+			}
+			o.Verdict, o.Reason = Finding, "reflect.Value.Index with an index that is not provably within 0..Len-1 (it is neither the variable of a loop bounded by the length, nor a constant under a length test, nor guarded on both sides): an out-of-range index panics"
+			if reach != nil {
+				o.Path = reach.Path(p.f)
+			}
+		}
+		r.Add(o)
 	}
 	return n
 }
